@@ -1422,6 +1422,21 @@ func groupAnon() {
 	h.add("P", ptr(ref("i.Item")), 2, "optional")
 	h = newStruct("anon")
 	h.add("M", mapOf(ptr(ref("Item")), list(ref("a.B"))), 1, "default")
+	// an anonymous struct answers to any name but not to the keyword of another type (D25): rejected
+	for _, mk := range []func() *Ty{
+		func() *Ty { return ref("i64") }, func() *Ty { return ref("string") }, func() *Ty { return ptr(ref("double")) },
+		func() *Ty { return list(ref("string")) }, func() *Ty { return mapOf(prim("string"), ref("bool")) },
+		func() *Ty { return ref("list") }, func() *Ty { return ref("pkg.binary") }} {
+		b := newStruct("anon")
+		b.Accept = false
+		b.add("Ok", prim("int32"), 1, "default")
+		t := mk()
+		req := "default"
+		if t.K == "ptr" {
+			req = "optional"
+		}
+		b.add("X", t, 2, req)
+	}
 	// Go type names as redundant annotations: every predeclared name leaves the type as it is (D24: `int`
 	// named `int` used to become a 32-bit enum), a defined integer type named in its annotation is an enum
 	goName := func(kind string) *Ty { t := prim(kind); t.Ann = kind; return t }
